@@ -245,6 +245,28 @@ def real_bases(rep, drv, tier):
                     ok = False
                 if not ok:
                     rep.fail('real-base-roundtrip', 'base-%d encoding %s of %d*2^%d does not decode to it' % (base, data.hex(), m, e), replay)
+                # the hint is a BER matter: DER and CER write the distinguished form (base 2, odd mantissa) whatever the value
+                # or its type asks for - hint on the instance, on a subclass, and through asn1Spec
+                if e % 3 == 0 or base == 2:
+                    from pyasn1.codec.der import encoder as der_enc
+                    from pyasn1.codec.cer import encoder as cer_enc
+                    want_der = x690_der(drv, engine.Case(('real',), ('real', m, 2, e)))
+
+                    class Hinted(univ.Real):
+                        binEncBase = base
+                    for route, mk in (('instance-hint', lambda: (r, {})), ('subclass-hint', lambda: (Hinted((m, 2, e)), {})),
+                                      ('spec-hint', lambda: ((m, 2, e), {'asn1Spec': Hinted()}))):
+                        for cname, cenc in (('der', der_enc), ('cer', cer_enc)):
+                            rep.count('real-hint-canonical')
+                            try:
+                                val, kw = mk()
+                                got_c = bytes(cenc.encode(val, **kw))
+                            except Exception as ex:  # noqa
+                                rep.fail('real-hint-encode-' + codec.classify(ex), '%s %s: %r' % (cname, route, ex), dict(replay, route=route, codec=cname))
+                                continue
+                            if want_der is not None and got_c != want_der:
+                                rep.fail('real-hint-not-canonical', '%s of %d*2^%d with binEncBase=%d (%s) is %s, the distinguished encoding is %s'
+                                         % (cname.upper(), m, e, base, route, got_c.hex(), want_der.hex()), dict(replay, route=route, codec=cname))
 
 
 def run(rep, tier, seed):
